@@ -50,6 +50,12 @@ class FunctionInfo:
                 return True
         return False
 
+    def is_static(self):
+        for d in getattr(self.node, "decorator_list", []):
+            if isinstance(d, ast.Name) and d.id == "staticmethod":
+                return True
+        return False
+
     def is_abstract(self):
         for d in getattr(self.node, "decorator_list", []):
             if isinstance(d, ast.Name) and d.id == "abstractmethod":
